@@ -12,7 +12,7 @@ from mon.fnlib import trans_b as tb
 RATE_TABLE = [
     (tr.t_const, "p"), (tr.t_ma1, "pa"), (tr.t_ma2, "pav"), (tr.t_mm, "vpp"), (tr.t_rev, "vvpp"), (tr.t_inh, "vap"),
     (tr.t_hill, "vpn"), (tr.t_cond, "vp"), (tr.t_chain, "vp"), (tr.t_elif, "vp"), (tr.t_nested, "vp"), (tr.t_local, "vp"), (tr.t_time, "pt"), (tr.t_cap, "vp"),
-    (tr.t_nestif, "vap"), (tr.t_guarded, "vap"),
+    (tr.t_nestif, "vap"), (tr.t_guarded, "vap"), (tr.t_share, "vap"),
 ]
 
 
